@@ -59,19 +59,48 @@ R.add('L19.1', l191, [{}], replay=replay_l191, desc='right password verifies; ve
       expect=['verify_password(p, hash_password(p)) is True', 'verify uses the salt and parameters stored in the hash'])
 
 
-def l192():
-    E().tags['collision_free'] = True
+def l192(kind):
+    """every q != p is p[:i] + r where i is the length of the common prefix; three shapes cover all of them:
+    q a proper prefix of p, p a proper prefix of q, or the byte after the common prefix differs (any tail)"""
+    if core._rp() is None:
+        E().tags['collision_free'] = True
     p, L = rope.blob('password', 0, None)
-    q, Lq = rope.blob('other', 0, None)       # a different password (content differs)
+    if kind == 'shorter':
+        i = core.symint('common_prefix', 0, None)
+        core.assume(i < L)
+        q = p[:i]
+    elif kind == 'longer':
+        r, Lr = rope.blob('extra', 1, None)
+        q = p + r
+    else:
+        i = core.symint('common_prefix', 0, None)
+        core.assume(i < L)
+        d = core.symint('delta', 1, 255)
+        c = p[i] + d
+        if bool(c > 255):
+            c = c - 256
+        t, Lt = rope.blob('tail', 0, None)
+        q = p[:i] + rope.field(c, 1) + t
     h = Auth.hash_password(p)
     ok = Auth.verify_password(q, h)
     check(ok is False, 'another password does not verify (given collision freedom of SHA-256 o scrypt)')
-    sp = E().tags['scrypt_params']
-    check(rope.rope_eq(sp[0]['salt'], sp[1]['salt']), 'same salt on both sides')
+    if core._rp() is None:
+        sp = E().tags['scrypt_params']
+        check(rope.rope_eq(sp[0]['salt'], sp[1]['salt']), 'same salt on both sides')
 
 
-R.add('L19.2', l192, [{}], desc='wrong password: result is derive(sha(q)) == derive(sha(p)), i.e. False unless the KDF collides',
-      expect=['another password does not verify (given collision freedom of SHA-256 o scrypt)'])
+def replay_l192(cfg, m):
+    # same harness on the real package; real scrypt with the library's parameters takes ~0.1 s per call
+    from .common import generic_replay
+    import sys as _s
+    return generic_replay(l192, [_s.modules[__name__]])(cfg, m)
+
+
+R.add('L19.2', l192, [dict(kind=k) for k in ('shorter', 'longer', 'differs')], replay=replay_l192,
+      desc='wrong password of every shape (proper prefix, proper extension, first differing byte at any offset with any tail, '
+           'lengths unbounded): result is False unless SHA-256/scrypt collide',
+      expect=['another password does not verify (given collision freedom of SHA-256 o scrypt)'],
+      bounds='password and candidate lengths unbounded (symbolic); offset of the first difference unbounded')
 
 
 def l193():
